@@ -44,9 +44,16 @@ def gen(rng):
     return {'mode': mode, 'callers': callers, 'stop_after': rng.choice([0, D, 4 * D]), 'dep': dep, 'phase2': phase2}
 
 
+def _who():
+    import threading
+    m = simrt.me()
+    return m.name if m is not None else threading.current_thread().name
+
+
 class EnsureHarness:
-    def __init__(self, A):
+    def __init__(self, A, execute=None):
         self.A = A
+        self.execute = execute or simrt.execute
 
     def run(self, scen, strategy, delays=None):
         A = self.A
@@ -74,7 +81,7 @@ class EnsureHarness:
             def make_body(aid, c, tgt, is_future):
                 async def body():
                     lp = aio.get_running_loop()
-                    emit('body_start', aid, lp is tgt, lp.sim_name, simrt.me().name)
+                    emit('body_start', aid, lp is tgt, lp.sim_name, _who())
                     if c['dur']:
                         await aio.sleep(c['dur'])
                     if c.get('role') == 'waiter':
@@ -179,10 +186,10 @@ class EnsureHarness:
             emit('max_runners', s.max_runners_seen)
 
         def pre(s):
-            if delays:
+            if delays and hasattr(s, 'line_delays'):
                 s.line_delays = [dict(d) for d in delays]
 
-        return simrt.execute(main, strategy, max_steps=150000, watchdog=60.0, pre=pre)
+        return self.execute(main, strategy, max_steps=150000, watchdog=60.0, pre=pre)
 
 
 class C17(Check):
@@ -206,11 +213,21 @@ class C17(Check):
         simrt.prepare([A])
         self.h = EnsureHarness(A)
 
+    REAL = {'quick': 16, 'thorough': 320}
+
     def cases(self, tier, seed):
-        for i in range(self.SIZES[tier]):
+        n = self.SIZES[tier]
+        nreal = self.REAL[tier]
+        every = max(1, n // nreal)
+        for i in range(n):
+            if i % every == 0 and i // every < nreal:
+                yield {'real': True, 'seed': (seed << 32) + i}
             yield {'seed': (seed << 32) + i}
 
     def run_case(self, case):
+        if case.get('real'):
+            from vf import engine_b
+            return engine_b.batch_case('ensure', 'x', case['seed'], 30, 'nontrivial')
         rng = random.Random(case['seed'])
         scen = gen(rng)
         k = rng.random()
@@ -228,6 +245,9 @@ class C17(Check):
                        'qual': rng.choice(['ensure_aw', 'ensure_aw', 'loop_in_thread', '_get_loop_lock', 'run_aw_threadsafe']),
                        'nth': rng.randint(1, 30), 'd': rng.choice([U, D, 4 * D])}]
         r = self.h.run(scen, strat, delays)
+        return self.judge(scen, r, strat)
+
+    def judge(self, scen, r, strat):
         res = CaseResult()
         res.sig = r.signature
         res.cov = {k: c for k, c in r.sched.line_cov.items() if k[0].startswith(self.anchors)}
@@ -315,7 +335,7 @@ class C17(Check):
         if res.nontrivial:
             st['nontrivial'] += 1
         if res.violations or res.nontrivial:
-            res.sample = {'scenario': scen, 'strategy': strat.describe(), 'verdict': r.verdict, 'log': log[:60],
+            res.sample = {'scenario': scen, 'strategy': strat.describe() if strat else 'engine B (free-running)', 'verdict': r.verdict, 'log': log[:60],
                           'switches': r.sched.switches[:10]}
         return res
 
